@@ -89,8 +89,8 @@ def run_server_part(ctx, HEADER, corr):
 def _objects(ctx, srv, g, HEADER, corr):
     """Single objects: PUT, GET, REPORT, export, re-upload."""
     rng = ctx.rng
-    n_coll = ctx.n(4, 40)
-    per = ctx.n(45, 120)
+    n_coll = ctx.n(4, 16)
+    per = ctx.n(36, 100)
     first = {}
 
     def fail(kind, what, replay):
@@ -99,6 +99,25 @@ def _objects(ctx, srv, g, HEADER, corr):
             ctx.violation(what, replay)
 
     export_cases = []
+    # regression corpus: one object per documented clean-up, through the real server
+    from checks.C14 import CLEANUP_CORPUS
+    srv.mkcalendar("/u/corpus/")
+    srv.mkaddressbook("/u/corpusab/")
+    for i, text in enumerate(CLEANUP_CORPUS):
+        path = ("/u/corpusab/c%d.vcf" if "BEGIN:VCARD" in text else "/u/corpus/c%d.ics") % i
+        st, h, _ = srv.put(path, text)
+        ctx.case(("corpus", text), nontrivial=True)
+        if st != 201:
+            fail("corpus", "clean-up corpus object %d refused with %s" % (i, st), dict(path=path, upload=text))
+            continue
+        got = srv.request("GET", path)[2].decode("utf-8")
+        exp, act = X.expected_facts(text), X.facts(got)
+        if exp != act:
+            fail("corpus-facts", "documented clean-up not applied as documented: %s" % json_short(X.diff_facts(exp, act)),
+                 dict(step="PUT then GET", path=path, upload=text, served=got))
+        st3, h3, _ = srv.put(path, got)
+        if st3 != 201 or srv.request("GET", path)[2].decode("utf-8") != got or h3.get("ETag") != h.get("ETag"):
+            fail("corpus-fixed", "cleaned object is not a fixed point of re-upload", dict(path=path, upload=text, served=got))
     for ci in range(n_coll):
         kind = "card" if ci % 4 == 3 else "cal"
         coll = "/u/%s%d/" % (kind, ci)
@@ -114,8 +133,19 @@ def _objects(ctx, srv, g, HEADER, corr):
         for i in range(per):
             uid = "c%d-o%d-%s" % (ci, i, g.ident(4))
             tree = g.card_object(uid) if kind == "card" else g.cal_object(uid, tz=(shared_tz if rng.random() < 0.5 else None))
-            text = g.render(tree, style=dict(eol=rng.choice(["\r\n", "\r\n", "\n"]), fold=rng.choice(["none", "75", "safe-random", "tab", "short"]),
-                                             lower=rng.random() < 0.1, quote_all=rng.random() < 0.1))
+            style = dict(eol=rng.choice(["\r\n", "\r\n", "\n"]), fold=rng.choice(["none", "75", "safe-random", "tab", "short"]),
+                         lower=rng.random() < 0.1, quote_all=rng.random() < 0.1)
+            if rng.random() < 0.15:
+                # plant one of the documented clean-up situations (zero DURATION, EXDATE/RDATE type, PHOTO data URI)
+                if kind == "cal":
+                    from checks.C14 import add_cleanup_case
+                    tree = add_cleanup_case(rng, tree, g)
+                elif style["fold"] in ("none", "75", "tab") and not style["lower"] and not style["quote_all"]:
+                    # the PHOTO clean-up is a regex on the physical line: it is documented for `PHOTO;ENCODING=b...:data:` on one line
+                    tree = (tree[0], [l for l in tree[1] if l[1] != "PHOTO"] + [
+                        (None, "PHOTO", (("ENCODING", ("b",)), ("TYPE", ("JPEG",))), "data:image/jpeg;base64,QUJDREVGRw==")], tree[2])
+                    g.features["cleanup:photo-data-uri"] += 1
+            text = g.render(tree, style=style)
             if rng.random() < 0.06:
                 k = rng.randrange(len(text))
                 text = text[:k] + rng.choice(["\x01", "\x0b", "\x1f"]) + text[k:]
@@ -153,6 +183,8 @@ def _objects(ctx, srv, g, HEADER, corr):
                     if ws_only_continuation(got):
                         ctx.violation("re-upload of the served text is not a fixed point (white-space-only continuation line)",
                                       dict(replay, status=st3, second=got3), signature="C14:fold-ws")
+                        if st3 == 201:      # the stored object changed: later REPORT / export are compared with the new state
+                            stored[path] = (got, got3, h3.get("ETag"), tree)
                     else:
                         fail("fixed", "re-uploading the served text gives status %s / different bytes or ETag" % st3, dict(replay, status=st3, second=got3))
         ctx.count("objects-stored", len(stored))
@@ -182,7 +214,7 @@ def _objects(ctx, srv, g, HEADER, corr):
             template = export_template(dn_, desc_)
             if real_export(texts, dn_, desc_) != real:
                 ctx.obligation("correspondence:export:stub-equals-collection", False, "BaseCollection.serialize on the stub differs from the stored collection")
-            for k in sorted(set((len(texts), min(6, len(texts)), min(2, len(texts))))):
+            for k in sorted(set((min(45, len(texts)), min(6, len(texts)), min(2, len(texts))))):
                 export_cases.append(((template, texts[:k]), real_export(texts[:k], dn_, desc_)))
     # regression corpus: two objects whose long TZIDs differ only after the fold point of the TZID line
     coll = "/u/regtz/"
@@ -328,7 +360,7 @@ def _whole_collections(ctx, srv, g, HEADER, corr):
     from radicale import item as ritem
     from radicale.app import put as rput
     split_cases = []
-    for wi in range(ctx.n(14, 150)):
+    for wi in range(ctx.n(12, 100)):
         tree, tzs = build_whole_calendar(g, rng, rng.choice([1, 2, 3, 5, 8]))
         text = g.render(tree, style=dict(eol="\r\n", fold=rng.choice(["none", "75", "tab"]), lower=False, quote_all=False))
         coll = "/u/whole%d/" % wi
@@ -395,7 +427,7 @@ def _whole_collections(ctx, srv, g, HEADER, corr):
          key=repr, nontrivial=lambda i, o: len(o) > 1)
 
     # address books: concatenated cards
-    for wi in range(ctx.n(4, 40)):
+    for wi in range(ctx.n(4, 30)):
         cards = [g.card_object("wc-%s-%d" % (g.ident(4), i)) for i in range(rng.choice([1, 2, 5]))]
         text = "".join(g.render(c, style=dict(eol="\r\n", fold=rng.choice(["none", "75"]), lower=False, quote_all=False)) for c in cards)
         coll = "/u/wab%d/" % wi
